@@ -2,6 +2,8 @@ package main
 
 import (
 	"flag"
+	"runtime"
+	"runtime/debug"
 	"fmt"
 	"os"
 	"strings"
@@ -14,6 +16,8 @@ func main() {
 		os.Exit(2)
 	}
 	defer cleanupScratch()
+	debug.SetMemoryLimit(12 << 30)
+	go memWatchdog()
 	switch os.Args[1] {
 	case "verify":
 		cmdVerify(os.Args[2:])
@@ -40,9 +44,16 @@ func cmdVerify(args []string) {
 	keep := fs.String("keep", "", "directory for failing queries")
 	verbose := fs.Bool("v", false, "list every obligation")
 	dump := fs.String("dump", "", "dump the full VC of matching units into this directory")
+	var subs multiFlag
+	fs.Var(&subs, "sub", "in-memory source rewrite FILE:::OLD:::NEW (relative to /repo), repeatable")
 	fs.Parse(args)
 	t0 := time.Now()
-	w, err := loadWorld("/repo", nil)
+	overlay, oerr := buildOverlay("/repo", subs)
+	if oerr != nil {
+		fmt.Println("overlay error:", oerr)
+		os.Exit(2)
+	}
+	w, err := loadWorld("/repo", overlay)
 	if err != nil {
 		fmt.Println("load error:", err)
 		os.Exit(2)
@@ -105,5 +116,52 @@ func cmdVerify(args []string) {
 	}
 	if fail > 0 {
 		os.Exit(1)
+	}
+}
+
+type multiFlag []string
+
+func (m *multiFlag) String() string     { return strings.Join(*m, ",") }
+func (m *multiFlag) Set(s string) error { *m = append(*m, s); return nil }
+
+// buildOverlay applies textual rewrites to files of the repository without touching the disk.
+func buildOverlay(root string, subs []string) (map[string][]byte, error) {
+	if len(subs) == 0 {
+		return nil, nil
+	}
+	ov := map[string][]byte{}
+	for _, s := range subs {
+		p := strings.SplitN(s, ":::", 3)
+		if len(p) != 3 {
+			return nil, fmt.Errorf("bad -sub %q", s)
+		}
+		path := root + "/" + p[0]
+		src, ok := ov[path]
+		if !ok {
+			b, err := os.ReadFile(path)
+			if err != nil {
+				return nil, err
+			}
+			src = b
+		}
+		if !strings.Contains(string(src), p[1]) {
+			return nil, fmt.Errorf("rewrite target not found in %s: %q", p[0], p[1])
+		}
+		ov[path] = []byte(strings.Replace(string(src), p[1], p[2], 1))
+	}
+	return ov, nil
+}
+
+// memWatchdog aborts the run before the machine runs out of memory (VC size cap).
+func memWatchdog() {
+	var ms runtime.MemStats
+	for {
+		time.Sleep(500 * time.Millisecond)
+		runtime.ReadMemStats(&ms)
+		if ms.HeapAlloc > 10<<30 {
+			fmt.Println("FATAL: VC generation exceeded the 10 GiB memory cap")
+			cleanupScratch()
+			os.Exit(3)
+		}
 	}
 }
